@@ -15,7 +15,7 @@ RULE = ('exhaustive: centre atom in {B C N O F Si P S Cl Br I As Se} x charge -2
         'H count where both toolkits define a state, plus: every environment RDKit accepts in a corpus molecule must have a '
         'state, (c) formula / charge / radical / mass recomputed from atoms and compared with RDKit, again after one label (charge / radical / '
         'isotope) was edited inside `with mol:` on an object whose totals had been read, (d) every listed (non-radical) state of 18 '
-        'elements written as bracket atom with its hydrogen count must be read back with exactly that count; non-trivial = environment '
+        'elements written as bracket atom with its hydrogen count must be read back with exactly that count, (e) pieces cut by substructure() / augmented_substructure() from corpus molecules and 22 complexes with coordinate bonds carry the counts their remaining bonds determine; non-trivial = environment '
         'with charge, radical, multiple bond or hetero neighbour, distinct by environment key')
 ASSUMPTIONS = ['CachedMethods compatibility shim', 'RDKit (sanitisation without its cleanup step) as independent valence model; '
                'where RDKit invents states for exotic ions that chython leaves undefined no verdict is taken',
@@ -27,13 +27,15 @@ CONFIG = {
         '13 centre elements x charge -2..+2 x radical x multisets of <= 3 bonds over 12 (order, neighbour) types'],
         'floors': {'evaluations': 60000, 'distinct_nontrivial': 20000, 'env.exhaustive': 50000, 'oracle.table-interpreter': 60000,
                    'oracle.rdkit-both-defined': 8000, 'totals.compared': 700, 'aromatic-atoms.compared': 3000,
-                   'totals.after-label-edit': 400, 'bracket-states.listed': 1200, 'partly-explicit-h.molecules': 1000}},
+                   'totals.after-label-edit': 400, 'bracket-states.listed': 1200, 'partly-explicit-h.molecules': 1000,
+                   'cuts.checked': 2500, 'cuts.complexes': 20, 'cuts.with-coordinate-bond-at-a-kept-atom': 200}},
     'thorough': {'shards': 16, 'budget_s': 1800, 'maxbonds': 4, 'n_corpus': 4200, 'all_elements': True, 'exhaustive_subspaces': [
         '13 centre elements x charge -2..+2 x radical x multisets of <= 4 bonds over 12 (order, neighbour) types',
         'the other 104 elements x charge -2..+2 x radical x multisets of <= 3 bonds'],
         'floors': {'evaluations': 300000, 'distinct_nontrivial': 100000, 'env.exhaustive': 230000,
                    'oracle.table-interpreter': 300000, 'oracle.rdkit-both-defined': 30000, 'totals.compared': 3000,
-                   'aromatic-atoms.compared': 15000, 'totals.after-label-edit': 1500, 'bracket-states.listed': 1200, 'partly-explicit-h.molecules': 3000}},
+                   'aromatic-atoms.compared': 15000, 'totals.after-label-edit': 1500, 'bracket-states.listed': 1200, 'partly-explicit-h.molecules': 3000,
+                   'cuts.checked': 8000, 'cuts.complexes': 20, 'cuts.with-coordinate-bond-at-a-kept-atom': 200}},
 }
 SYM2Z = {}
 
@@ -421,6 +423,60 @@ def totals_after_label_edit(ctx, m, src, rng):
         ctx.violation('charge-is-not-the-sum-over-atoms/after-label-edit-in-transaction', '%s int()/float()' % src, w)
 
 
+COMPLEXES = ['CN~[Cu]', 'N#C~[Fe]', 'CO~[Zn]', 'NCCN~[Cu]', 'CC#N~[Pd](Cl)Cl', 'C[NH2]~[Cu]', 'CS(C)~[Pt](Cl)Cl', 'CP(C)(C)~[Pd]~P(C)(C)C', 'c1ccncc1~[Cu]', 'N~[Co](~N)(~N)~N',
+             'CCO~[Mg](Br)C', 'CC(=O)O~[Zn]', 'OC(C)=O~[Cu]', 'C[Se]C~[Pd](Cl)Cl', 'C1CN~[Ni]~N1', 'NC(C)C(=O)O~[Cu]', 'CSC~[Hg]~SC', 'O~[Fe](~O)(~O)(~O)(~O)~O',
+             'CN(C)~[Sc](Cl)(Cl)Cl', 'C=C~[Pt](Cl)(Cl)Cl', 'CNC~[Li]', 'N#CC~[Cu]~N#CC']
+
+
+def cut_pieces(ctx, m, src, rng, k=4):
+    """substructure() / augmented_substructure(): every atom of the piece carries the hydrogen count its remaining bonds determine
+    (table interpreter on the piece), whatever count it had in the parent; atoms with no valence state are exactly those reported"""
+    atoms = list(m._atoms)
+    metals = [n for n, a in m.atoms() if not a.is_forming_single_bonds]
+    cuts = []
+    for _ in range(k):
+        start = rng.choice(atoms)
+        chosen, frontier = {start}, [start]
+        size = rng.randrange(1, min(8, len(atoms)) + 1)
+        while frontier and len(chosen) < size:
+            x = frontier.pop(rng.randrange(len(frontier)))
+            for y in m._bonds[x]:
+                if y not in chosen and len(chosen) < size:
+                    chosen.add(y)
+                    frontier.append(y)
+        cuts.append(('substructure', chosen))
+    for n in metals[:3]:
+        for deep in (1, 2):
+            cuts.append(('augmented_substructure/deep=%d' % deep, (n, deep)))
+    for how, arg in cuts:
+        try:
+            if how == 'substructure':
+                sub = m.substructure(arg)
+            else:
+                sub = m.augmented_substructure([arg[0]], deep=arg[1])
+        except Exception as e:
+            ctx.violation('substructure-raises/%s' % type(e).__name__, '%s %s %r: %r' % (src, how, arg, e), {'smiles': src})
+            continue
+        ctx.evaluations += 1
+        ctx.count('cuts.checked')
+        if any(b.order == 8 for n in sub._atoms for b in m._bonds[n].values()):
+            ctx.count('cuts.with-coordinate-bond-at-a-kept-atom')
+        bad_reported = set(sub.check_valence())
+        for n, a in sub.atoms():
+            ok, h = expected_h(sub, n)
+            if ok is None:
+                continue
+            if ok and a.implicit_hydrogens != h:
+                ctx.violation('hydrogen-count-of-cut-piece-differs-from-rule-tables/%s' % a.atomic_symbol,
+                              '%s %s -> %s atom %d: has %r H (in the parent %r), its bonds in the piece give %r'
+                              % (src, how, sub, n, a.implicit_hydrogens, m._atoms[n].implicit_hydrogens, h), {'smiles': src})
+                return
+            if not ok and (a.implicit_hydrogens is not None or n not in bad_reported):
+                ctx.violation('cut-piece-atom-without-valence-state-not-reported/%s' % a.atomic_symbol,
+                              '%s %s -> %s atom %d: H %r, check_valence %r' % (src, how, sub, n, a.implicit_hydrogens, sorted(bad_reported)), {'smiles': src})
+                return
+
+
 def worker(ctx):
     cfg = CONFIG[ctx.tier]
     rng = ctx.rng
@@ -455,6 +511,16 @@ def worker(ctx):
         if ctx.out_of_time():
             ctx.note('time budget reached in exhaustive part at %s' % csym)
             break
+    for k, s in enumerate(COMPLEXES):
+        if ctx.mine(k):
+            try:
+                m = smiles(s)
+            except Exception as e:
+                ctx.violation('complex-not-readable/%s' % type(e).__name__, '%s: %r' % (s, e), {'smiles': s})
+                continue
+            ctx.count('cuts.complexes')
+            check_molecule(ctx, m, s, rng, False)
+            cut_pieces(ctx, m, s, rng, 12)
     c = T.corpus()
     corpus_set = set(c)
     ids = list(range(len(c)))
@@ -471,6 +537,7 @@ def worker(ctx):
         ctx.nontrivial.add('mol:' + s)
         strict = s in corpus_set
         check_molecule(ctx, m, s, rng, strict)
+        cut_pieces(ctx, m, s, rng, 2)
         try:
             t = m.copy()
             G._fix_slots(t)
